@@ -586,3 +586,20 @@ mod tests {
         assert_eq!(res4, 4);
     }
 }
+
+/// Read-only accessors for the verification harness.
+#[cfg(feature = "verif")]
+impl RawMemoryFreeList {
+    pub fn verif_high_water(&self) -> Address {
+        self.high_water
+    }
+    pub fn verif_base(&self) -> Address {
+        self.base
+    }
+    pub fn verif_current_units(&self) -> i32 {
+        self.current_units
+    }
+    pub fn verif_max_units(&self) -> i32 {
+        self.max_units
+    }
+}
